@@ -18,9 +18,22 @@ import (
 // compared with the abstract model after every step.
 
 func c10PersistRun(path []int, ops []c10Op) (key, detail string) {
+	return c10PersistRunFrom(path, ops, false)
+}
+
+// c10PersistRunFrom runs the history from the initial pool (identity, Base(), 0, n-0x1234567) or, with alt, from
+// (5G in a re-scaled representation, Base(), 2, n-0x1234567): with a non-trivial second point already in the pool,
+// three steps suffice for "decode another point into the element that Base() made, then use it".
+func c10PersistRunFrom(path []int, ops []c10Op, alt bool) (key, detail string) {
 	c10HashOnce.Do(c10Hash)
 
 	st, m := c10Initial()
+
+	if alt {
+		p5 := ref.Secp.Mul(big.NewInt(5), ref.G())
+		st.e[0], m.e[0] = rawOf(newElement(Rep{p5, big.NewInt(3)})), p5
+		st.s[0], m.s[0] = ref.Mont(big.NewInt(2), ref.N), big.NewInt(2)
+	}
 	el := [c10E]*secp256k1.Element{fromRaw(st.e[0]), fromRaw(st.e[1])}
 	sc := [c10S]*secp256k1.Scalar{scalarRaw(st.s[0]), scalarRaw(st.s[1])}
 
@@ -468,8 +481,17 @@ func persistSub(rule string, keep func(o c10Op) bool, depth3 func(o c10Op) bool)
 			if key, detail := c10PersistRun(paths[i], all); key != "" {
 				r.Violation(key, detail, Case{"op": "persist", "path": fmt.Sprint(paths[i])})
 			}
+
+			// the same history from the second initial pool
+			r.Transitions.Add(int64(len(paths[i])))
+			r.Evals.Add(1)
+
+			if key, detail := c10PersistRunFrom(paths[i], all, true); key != "" {
+				r.Violation(key, detail, Case{"op": "persist", "path": fmt.Sprint(paths[i]), "alt": "true"})
+			}
 		})
 
+		r.Bound("initial_pools", 2)
 		r.Sample(Case{"op": "persist", "path": fmt.Sprint(paths[len(paths)/2])})
 	}
 }
@@ -513,7 +535,7 @@ func init() {
 		}
 	}
 
-	Parts["C01persist"] = Part{"C01", persistSub(elemRule, isElem, arith("Multiply", "Double", "Decode(Encode)", "Base", "Negate"))}
+	Parts["C01persist"] = Part{"C01", persistSub(elemRule, isElem, arith("Multiply", "Double", "Decode(Encode)", "Base", "Negate", "DecodeCompressed(Encode)", "DecodeUncompressed(EncodeUncompressed)", "DecodeCoordinates(affine)", "Set"))}
 	Parts["C02persist"] = Part{"C02", persistSub(elemRule, isElem, arith("Add", "Subtract", "Double", "Negate", "Identity", "zero;Identity"))}
 	Parts["C05persist"] = Part{"C05", persistSub(elemRule, isElem, arith("Set", "Negate", "Identity", "Double", "Decode(EncodeUncompressed)", "zero;Identity", "zero;Decode(00)", "zero;Multiply(nil)"))}
 	Parts["C06persist"] = Part{"C06", persistSub(scalRule, isScal, arith("Add", "Subtract", "Multiply", "Square", "Invert", "Pow"))}
